@@ -209,3 +209,27 @@ Qed.
 (** the occupancy theorems apply to the example world *)
 Example ex_occupancy : Rdm_average_occupancy_i 2 0 exH exD = Done (trace_rho_op exfock exH exD (op_n 0)).
 Proof. apply (occupancy_is_trace exfock exH exD ex_fock_nodup ex_blocks_wf ex_blocks_in_fock 2 0). lia. Qed.
+
+(** susc_truncation_bound: one dropped part with one non-resonant term in the Gibbs ratio, beta = 2, pole 1 *)
+Definition ex_sterm : sterm := mk_sterm (RtoC 1) (RtoC 1) (1/10) (1/10 * exp (- 2 * 1)) 1 true.
+Definition ex_sparts : list suscpart := [mk_suscpart 0 1 [[ex_sterm]]].
+Example ex_susc_bound_hyps :
+  fst (0, 3) = 0 /\
+  (forall p row t, In p ex_sparts -> suscpart_kept (fun _ => false) p = false -> In row (sp_rows p) -> In t row ->
+     0 <= st_wn t <= 1/4 /\ 0 <= st_wm t <= 1/4 /\ st_wm t = st_wn t * exp (- 2 * st_pole t)) /\
+  (forall p row, In p ex_sparts -> In row (sp_rows p) -> lsum (fun t => Cmod (st_a t) * Cmod (st_a t)) row <= 1) /\
+  (forall p row, In p ex_sparts -> In row (sp_rows p) -> lsum (fun t => Cmod (st_b t) * Cmod (st_b t)) row <= 1) /\
+  lsum (fun p => INR (length (sp_rows p))) ex_sparts <= 1.
+Proof.
+  assert (E1 : 0 < exp (- 2 * 1) <= 1).
+  { split; [apply exp_pos|]. apply Rle_trans with (exp 0); [left; apply exp_increasing; lra|rewrite exp_0; lra]. }
+  split; [reflexivity|]. split; [|split; [|split]].
+  - intros p row t Hp _ Hrow Ht. unfold ex_sparts in Hp. in_cases Hp. cbn in Hrow. in_cases Hrow. cbn in Ht. in_cases Ht.
+    cbn [ex_sterm st_wn st_wm st_pole]. destruct E1 as [E1 E2].
+    assert (0 <= 1 / 10 * exp (- 2 * 1)) by (apply Rmult_le_pos; lra).
+    assert (1 / 10 * exp (- 2 * 1) <= 1 / 4) by (apply Rle_trans with (1 / 10 * 1); [apply Rmult_le_compat_l; lra|lra]).
+    repeat split; try lra; reflexivity.
+  - intros p row Hp Hrow. unfold ex_sparts in Hp. in_cases Hp. cbn in Hrow. in_cases Hrow. cbn. rewrite Cmod_1. lra.
+  - intros p row Hp Hrow. unfold ex_sparts in Hp. in_cases Hp. cbn in Hrow. in_cases Hrow. cbn. rewrite Cmod_1. lra.
+  - cbn. lra.
+Qed.
